@@ -53,6 +53,11 @@ def cases(tier, seed):
         perms = [None] + [list(p) for p in itertools.permutations(range(n)) if list(p) != list(range(n))]
         if n == 4:
             perms = [None, [3, 2, 1, 0], [1, 0, 2, 3], [0, 2, 1, 3], [1, 2, 3, 0]]
+        if n == 3:
+            # a badly prepared atom (two active qubits + dark-atom padding in the snapshot), with and without reordering; XY exchange
+            for p in (None, [2, 0, 1]):
+                yield {"path": "tdvp", "shape": shape, "kind": "dmm", "perm": p, "spam": [0, 1, 0]}
+            yield {"path": "tdvp", "shape": shape, "kind": "global", "perm": None, "xy": True}
         for path in ("tdvp", "dmrg", "noisy"):
             for kind in ("dmm", "local"):
                 if n == 2 and kind == "local":
@@ -83,7 +88,7 @@ def _setup(case):
         if "ch" in q:
             q["protocol"] = "no-delay"
         pulses.append(q)
-    spec = {"coords": kit.SHAPES[case["shape"]], "device": "mock", "basis": "rydberg", "pulses": pulses}
+    spec = {"coords": kit.SHAPES[case["shape"]], "device": "mock", "basis": "xy" if case.get("xy") else "rydberg", "pulses": pulses}
     if "dmm" in d:
         spec["dmm"] = dict(d["dmm"], wfs=[["ramp", 30, 0.0, -8.0]])
     if "local_channel" in d:
@@ -102,6 +107,10 @@ def _setup(case):
             kw["solver"] = m.Solver.DMRG
         if case["path"] == "noisy":
             kw["noise_model"] = pulser.NoiseModel(relaxation_rate=40.0)
+        if case.get("spam"):
+            kw["noise_model"] = pulser.NoiseModel(state_prep_error=0.3, p_false_pos=0.0, p_false_neg=0.0)
+        if case.get("xy"):
+            kw["initial_state"] = m.MPS.from_state_amplitudes(eigenstates=("r", "g"), amplitudes={"rgg": 1.0})
         return m.MPSConfig(dt=10, precision=1e-9, observables=obs, optimize_qubit_ordering=case["perm"] is not None, autosave_dt=A.AUTOSAVE_DT, log_level=logging.CRITICAL, num_gpus_to_use=0, **kw)
 
     def rng():
@@ -112,6 +121,10 @@ def _setup(case):
     return seq, config, rng
 
 
+def _np_script(case):
+    return {"uniform": [seams.bad_mask_uniform(case["spam"])]} if case.get("spam") else None
+
+
 def run_case(case):
     import os
 
@@ -120,7 +133,7 @@ def run_case(case):
     evaluations = 0
     nontrivial = 0
     with A.scratch_dir() as wd:
-        s0 = A.Session(wd, rng=rng(), optimiser=case["perm"])
+        s0 = A.Session(wd, rng=rng(), optimiser=case["perm"], np_script=_np_script(case))
         status, res = s0.run(seq, config())
         if status != "done":
             return result(False, sig="harness|baseline-crashed", msg=f"{label}: uninterrupted run ended with {status}: {res}", outcome="base")
@@ -135,7 +148,7 @@ def run_case(case):
         plans = [(k,) for k in range(total)] + [(k, 2) for k in range(0, max(total - 3, 0))]
         for plan in plans:
             k = plan[0]
-            s1 = A.Session(wd, save_calls=[k], crash_after_save_call=k, rng=rng(), optimiser=case["perm"])
+            s1 = A.Session(wd, save_calls=[k], crash_after_save_call=k, rng=rng(), optimiser=case["perm"], np_script=_np_script(case))
             status, info = s1.run(seq, config())
             evaluations += 1
             if status == "done":
